@@ -5,7 +5,8 @@
   TicketType.join(a, b):   None <=> ticketer or contents differ; else one ticket with amount a+b   [conservation]
   TICKET instruction:      None <=> amount == 0, else a ticket of SELF_ADDRESS with that amount and content
   SPLIT_TICKET / JOIN_TICKETS instructions: option of the above, stack otherwise untouched
-  is_duplicable: false for every type that contains a ticket (enumerated type shapes to depth 3, native).
+  is_duplicable: false exactly for the types whose values can hold a ticket; is_pushable / is_packable false for all of them
+  (every composition of up to three type constructors with the ticket in every position, native).
 """
 import itertools
 import z3
@@ -36,7 +37,10 @@ def content(kind):
     T = _types()
     return {'nat5': T.NatType(5), 'nat6': T.NatType(6), 'str': T.StringType('x'), 'int-1': T.IntType(-1), 'int-2': T.IntType(-2),
             'nat0': T.NatType(0), 'natM61': T.NatType(2 ** 61 - 1),
-            'pair': T.PairType.from_comb([T.NatType(1), T.StringType('a')])}[kind]
+            'pair': T.PairType.from_comb([T.NatType(1), T.StringType('a')]),
+            'pair2': T.PairType.from_comb([T.NatType(1), T.StringType('b')]),
+            'strE': T.StringType(''),
+            'optN': T.OptionType.none(T.NatType), 'opt0': T.OptionType.from_some(T.NatType(0))}[kind]
 
 
 def ticket(ticketer, item, amount):
@@ -56,34 +60,48 @@ def is_ticket(o):
     return isinstance(o, Obj) and o.cls.prim == 'ticket'
 
 
-def h_split():
+# Widened: split / TICKET / SPLIT_TICKET used to see ONE content (nat 5) only although the property quantifies over all
+# contents; now scalar, string, structured (pair: not a `.value` carrier, copied by split) and falsy (nat 0) contents, and a
+# ticket whose class carries a %field annotation (a ticket taken out of an annotated pair component).
+CONTENT_KINDS = ('nat5', 'pair', 'str', 'nat0')
+
+
+def annotated_ticket(ticketer, item, amount):
+    from pytezos.michelson.types.base import MichelsonType
+    cls = MichelsonType.match(dict(_types().TicketType.create_type(args=[item.get_anon_type()]).as_micheline_expr(), annots=['%tk']))
+    assert cls.field_name == 'tk'
+    return mk(cls, ticketer=ticketer, item=item, amount=amount)
+
+
+def h_split(kind='nat5', annotated=False):
     T = _types()
+    tag = '' if (kind, annotated) == ('nat5', False) else f'[content {kind}{", %field-annotated ticket class" if annotated else ""}]'
 
     def h(e: Engine):
         amount = e.int('amount', lo=1)
         l = e.int('left', lo=0)
         r = e.int('right', lo=0)
-        t = ticket(ADDR_A, content('nat5'), amount)
+        t = (annotated_ticket if annotated else ticket)(ADDR_A, content(kind), amount)
         try:
             res = e.call(e.getattr_(t, 'split'), [l, r])
         except RaiseEx as ex:
-            e.check(f'TicketType.split::safety.no_exception[{type(ex.exc).__name__}]', z3.BoolVal(False))
+            e.check(f'TicketType.split{tag}::safety.no_exception[{type(ex.exc).__name__}]', z3.BoolVal(False))
             return
         none_spec = z3.Or(l.e == 0, r.e == 0, l.e + r.e != amount.e)
         if res is None:
-            e.check('TicketType.split::returns_None.only_if(zero part or parts not summing to amount)', none_spec)
+            e.check(f'TicketType.split{tag}::returns_None.only_if(zero part or parts not summing to amount)', none_spec)
             return
-        e.check('TicketType.split::returns_pair.only_if(both parts positive and summing to amount)', z3.Not(none_spec))
+        e.check(f'TicketType.split{tag}::returns_pair.only_if(both parts positive and summing to amount)', z3.Not(none_spec))
         ok = isinstance(res, tuple) and len(res) == 2 and all(is_ticket(x) for x in res)
-        e.check('TicketType.split::ensures.two_tickets', z3.BoolVal(bool(ok)))
+        e.check(f'TicketType.split{tag}::ensures.two_tickets', z3.BoolVal(bool(ok)))
         if ok:
             a, b = res
-            e.check('TicketType.split::ensures.amounts(l, r)', z3.And(Z(a.f['amount']) == l.e, Z(b.f['amount']) == r.e))
-            e.check('TicketType.split::ensures.conservation', Z(a.f['amount']) + Z(b.f['amount']) == amount.e)
-            e.check('TicketType.split::ensures.result_type==ticket<content type>', z3.BoolVal(a.cls is t.cls and b.cls is t.cls))
-            e.check('TicketType.split::ensures.same_ticketer_and_content',
-                    z3.BoolVal(a.f['ticketer'] == ADDR_A and b.f['ticketer'] == ADDR_A and a.f['item'] == content('nat5')
-                               and b.f['item'] == content('nat5')))
+            e.check(f'TicketType.split{tag}::ensures.amounts(l, r)', z3.And(Z(a.f['amount']) == l.e, Z(b.f['amount']) == r.e))
+            e.check(f'TicketType.split{tag}::ensures.conservation', Z(a.f['amount']) + Z(b.f['amount']) == amount.e)
+            e.check(f'TicketType.split{tag}::ensures.result_type==ticket<content type>', z3.BoolVal(a.cls is t.cls and b.cls is t.cls))
+            e.check(f'TicketType.split{tag}::ensures.same_ticketer_and_content',
+                    z3.BoolVal(a.f['ticketer'] == ADDR_A and b.f['ticketer'] == ADDR_A and a.f['item'] == content(kind)
+                               and b.f['item'] == content(kind)))
     return h
 
 
@@ -144,37 +162,106 @@ def _stack(items):
     return st
 
 
-def h_ticket_instr():
+def h_ticket_instr(kind='nat5'):
     from pytezos.michelson.instructions.ticket import TicketInstruction
     T = _types()
+    tag = '' if kind == 'nat5' else f'[content {kind}]'
 
     def h(e: Engine):
         amount = e.int('amount', lo=0)
         below = T.StringType('below')
-        st = _stack([content('nat5'), nat(amount), below])
+        st = _stack([content(kind), nat(amount), below])
         try:
             e.call(e.unwrap(TicketInstruction.__dict__['execute'].__func__), [TicketInstruction, st, [], _Ctx()])
         except RaiseEx as ex:
-            e.check(f'TICKET::safety.no_exception[{type(ex.exc).__name__}]', z3.BoolVal(False))
+            e.check(f'TICKET{tag}::safety.no_exception[{type(ex.exc).__name__}]', z3.BoolVal(False))
             return
         ok = len(st.items) == 2 and st.items[1] is below and opt_item(st.items[0])[0]
-        e.check('TICKET::ensures.stack_shape(option on top, rest untouched)', z3.BoolVal(bool(ok)))
+        e.check(f'TICKET{tag}::ensures.stack_shape(option on top, rest untouched)', z3.BoolVal(bool(ok)))
         if not ok:
             return
         item = opt_item(st.items[0])[1]
         if item is None:
-            e.check('TICKET::returns_None.only_if(amount == 0)', amount.e == 0)
+            e.check(f'TICKET{tag}::returns_None.only_if(amount == 0)', amount.e == 0)
         else:
-            e.check('TICKET::returns_Some.only_if(amount > 0)', amount.e > 0)
-            e.check('TICKET::ensures.ticket(self address, content, amount)',
-                    z3.And(z3.BoolVal(is_ticket(item) and item.f['ticketer'] == ADDR_A and item.f['item'] == content('nat5')),
+            e.check(f'TICKET{tag}::returns_Some.only_if(amount > 0)', amount.e > 0)
+            e.check(f'TICKET{tag}::ensures.ticket(self address, content, amount)',
+                    z3.And(z3.BoolVal(is_ticket(item) and item.f['ticketer'] == ADDR_A and item.f['item'] == content(kind)),
                            Z(item.f['amount']) == amount.e) if is_ticket(item) else z3.BoolVal(False))
     return h
 
 
-def h_split_instr():
+# TICKET_DEPRECATED (the pre-Lima form, still executable: it pushes the ticket itself, not an option) was not covered at all.
+# amount >= 1: a ticket (self address, content, amount) - the only other place where the total may grow, by exactly the amount.
+# CANDIDATE_DEFECT (unchanged tree, reproduced natively, reported, NOT registered): with amount 0 it pushes a ticket of amount
+# zero (`PUSH nat 0 ; PUSH nat 5 ; TICKET_DEPRECATED`), which the property excludes ("no ticket with amount zero is ever produced";
+# the protocol fails with Forbidden_zero_ticket_quantity).  The zero case runs only when RUN_CANDIDATE_DEFECTS is set.
+def h_ticket_deprecated(kind='nat5'):
+    from pytezos.michelson.instructions.ticket import TicketDeprecatedInstruction
+    T = _types()
+
+    def h(e: Engine):
+        amount = e.int('amount', lo=0 if RUN_CANDIDATE_DEFECTS else 1)
+        below = T.StringType('below')
+        st = _stack([content(kind), nat(amount), below])
+        tag = f'[content {kind}]'
+        try:
+            e.call(e.unwrap(TicketDeprecatedInstruction.__dict__['execute'].__func__), [TicketDeprecatedInstruction, st, [], _Ctx()])
+        except RaiseEx as ex:
+            e.check(f'TICKET_DEPRECATED{tag}::fails.only_if(amount == 0)[{type(ex.exc).__name__}]', amount.e == 0)
+            return
+        e.check(f'TICKET_DEPRECATED{tag}::returns.only_if(amount > 0: no ticket of amount zero)', amount.e > 0)
+        ok = len(st.items) == 2 and st.items[1] is below and is_ticket(st.items[0])
+        e.check(f'TICKET_DEPRECATED{tag}::ensures.stack_shape(ticket on top, rest untouched)', z3.BoolVal(bool(ok)))
+        if ok:
+            item = st.items[0]
+            e.check(f'TICKET_DEPRECATED{tag}::ensures.ticket(self address, content, exactly the requested amount)',
+                    z3.And(z3.BoolVal(item.f['ticketer'] == ADDR_A and item.f['item'] == content(kind)), Z(item.f['amount']) == amount.e))
+    return h
+
+
+# READ_TICKET had no deductive obligation (bounded part only, concrete amounts): for ALL amounts it must leave the very same
+# ticket (same object: not a copy, not a re-built one) under a comb (ticketer, content, amount) and touch nothing else.
+def h_read_ticket(kind='nat5'):
+    from pytezos.michelson.instructions.ticket import ReadTicketInstruction
+    T = _types()
+
+    def h(e: Engine):
+        amount = e.int('amount', lo=1)
+        below = T.StringType('below')
+        t = ticket(ADDR_B, content(kind), amount)
+        st = _stack([t, below])
+        tag = f'[content {kind}]'
+        try:
+            e.call(e.unwrap(ReadTicketInstruction.__dict__['execute'].__func__), [ReadTicketInstruction, st, [], _Ctx()])
+        except RaiseEx as ex:
+            e.check(f'READ_TICKET{tag}::safety.no_exception[{type(ex.exc).__name__}]', z3.BoolVal(False))
+            return
+        ok = len(st.items) == 3 and st.items[2] is below and st.items[1] is t
+        e.check(f'READ_TICKET{tag}::ensures.stack_shape(info on top, the SAME ticket below it, rest untouched)', z3.BoolVal(bool(ok)))
+        e.check(f'READ_TICKET{tag}::ensures.ticket_unchanged', z3.And(z3.BoolVal(t.f['ticketer'] == ADDR_B and t.f['item'] == content(kind)), Z(t.f['amount']) == amount.e))
+        if ok:
+            info = st.items[0]
+
+            def items_of(x):
+                return list(x.f.get('items') or ()) if isinstance(x, Obj) else (list(x) if getattr(type(x), 'prim', None) == 'pair' else [])
+            outer = items_of(info)
+            inner = items_of(outer[1]) if len(outer) == 2 else []
+            good = len(outer) == 2 and len(inner) == 2
+            e.check(f'READ_TICKET{tag}::ensures.info==(ticketer, content, amount)',
+                    z3.And(z3.BoolVal(bool(good) and str(payload_value(outer[0])) == ADDR_B and inner[0] == content(kind)),
+                           Z(payload_value(inner[1])) == amount.e) if good else z3.BoolVal(False))
+    return h
+
+
+def payload_value(x):
+    return x.f.get('value') if isinstance(x, Obj) else getattr(x, 'value', None)
+
+
+def h_split_instr(kind='nat5', annotated=False):
     from pytezos.michelson.instructions.ticket import SplitTicketInstruction
     T = _types()
+    tag = '' if (kind, annotated) == ('nat5', False) else f'[content {kind}{", %field-annotated ticket class" if annotated else ""}]'
 
     def h(e: Engine):
         amount = e.int('amount', lo=1)
@@ -183,25 +270,25 @@ def h_split_instr():
         below = T.StringType('below')
         pair_cls = T.PairType.create_type(args=[T.NatType, T.NatType])
         amounts = mk(pair_cls, items=(nat(l), nat(r)))
-        st = _stack([ticket(ADDR_A, content('nat5'), amount), amounts, below])
+        st = _stack([(annotated_ticket if annotated else ticket)(ADDR_A, content(kind), amount), amounts, below])
         try:
             e.call(e.unwrap(SplitTicketInstruction.__dict__['execute'].__func__), [SplitTicketInstruction, st, [], _Ctx()])
         except RaiseEx as ex:
-            e.check(f'SPLIT_TICKET::safety.no_exception[{type(ex.exc).__name__}]', z3.BoolVal(False))
+            e.check(f'SPLIT_TICKET{tag}::safety.no_exception[{type(ex.exc).__name__}]', z3.BoolVal(False))
             return
         ok = len(st.items) == 2 and st.items[1] is below and opt_item(st.items[0])[0]
-        e.check('SPLIT_TICKET::ensures.stack_shape', z3.BoolVal(bool(ok)))
+        e.check(f'SPLIT_TICKET{tag}::ensures.stack_shape', z3.BoolVal(bool(ok)))
         if not ok:
             return
         none_spec = z3.Or(l.e == 0, r.e == 0, l.e + r.e != amount.e)
         item = opt_item(st.items[0])[1]
         if item is None:
-            e.check('SPLIT_TICKET::returns_None.only_if(zero part or wrong sum)', none_spec)
+            e.check(f'SPLIT_TICKET{tag}::returns_None.only_if(zero part or wrong sum)', none_spec)
         else:
-            e.check('SPLIT_TICKET::returns_Some.only_if(positive parts summing to amount)', z3.Not(none_spec))
+            e.check(f'SPLIT_TICKET{tag}::returns_Some.only_if(positive parts summing to amount)', z3.Not(none_spec))
             parts = item.f.get('items') if isinstance(item, Obj) else None
             good = parts is not None and len(parts) == 2 and all(is_ticket(p) for p in parts)
-            e.check('SPLIT_TICKET::ensures.pair_of_tickets(l, r)',
+            e.check(f'SPLIT_TICKET{tag}::ensures.pair_of_tickets(l, r)',
                     z3.And(Z(parts[0].f['amount']) == l.e, Z(parts[1].f['amount']) == r.e) if good else z3.BoolVal(False))
     return h
 
@@ -242,13 +329,31 @@ def h_join_instr(case):
 JOIN_CASES = [(ADDR_A, ADDR_A, 'nat5', 'nat5'), (ADDR_A, ADDR_B, 'nat5', 'nat5'), (ADDR_A, ADDR_A, 'nat5', 'nat6'),
               (ADDR_A, ADDR_B, 'nat5', 'nat6'), (ADDR_A, ADDR_A, 'pair', 'pair'), (ADDR_A, ADDR_A, 'nat5', 'str'),
               # contents that are different values with equal CPython hashes (hash(-1) == hash(-2); 0 and 2^61-1)
-              (ADDR_A, ADDR_A, 'int-1', 'int-2'), (ADDR_A, ADDR_A, 'nat0', 'natM61'), (ADDR_A, ADDR_A, 'int-1', 'int-1')]
+              (ADDR_A, ADDR_A, 'int-1', 'int-2'), (ADDR_A, ADDR_A, 'nat0', 'natM61'), (ADDR_A, ADDR_A, 'int-1', 'int-1'),
+              # widened: ticketers that differ only at the very end / only in case / by being a prefix; falsy ticketer and
+              # contents (empty string, nat 0, None vs Some 0); structured contents differing in the last component only
+              (ADDR_A, ADDR_A[:-1] + 'j', 'nat5', 'nat5'), (ADDR_A, ADDR_A[:-4] + 'abcd', 'nat5', 'nat5'), (ADDR_A, ADDR_A.lower(), 'nat5', 'nat5'),
+              (ADDR_A, ADDR_A[:-1], 'nat5', 'nat5'), ('', '', 'nat5', 'nat5'), ('', ADDR_A, 'nat5', 'nat5'),
+              (ADDR_A, ADDR_A, 'nat0', 'nat0'), (ADDR_A, ADDR_A, 'strE', 'strE'), (ADDR_A, ADDR_A, 'strE', 'str'),
+              (ADDR_A, ADDR_A, 'optN', 'opt0'), (ADDR_A, ADDR_A, 'optN', 'optN'), (ADDR_A, ADDR_A, 'opt0', 'opt0'),
+              (ADDR_A, ADDR_A, 'pair', 'pair2')]
+assert ADDR_A[-1] != 'j' and ADDR_A[-4:] != 'abcd' 
 
 
 def job(kind, arg=None):
     if kind == 'join_instr':
         return h_join_instr(arg)
-    return {'split': h_split, 'ticket': h_ticket_instr, 'split_instr': h_split_instr}[kind]() if kind != 'join' else h_join(arg)
+    if kind == 'join':
+        return h_join(arg)
+    if kind == 'ticket_deprecated':
+        return h_ticket_deprecated(arg)
+    if kind == 'read_ticket':
+        return h_read_ticket(arg)
+    if arg is None:
+        return {'split': h_split, 'ticket': h_ticket_instr, 'split_instr': h_split_instr}[kind]()
+    if kind == 'ticket':
+        return h_ticket_instr(arg)
+    return {'split': h_split, 'split_instr': h_split_instr}[kind](*arg)
 
 
 # ------------------------------------------------------------------------------- native replay
@@ -257,8 +362,11 @@ def native(case):
     k = case.get('kind')
     if k in ('split', 'split_instr'):
         amount, l, r = case['amount'], case['left'], case['right']
-        t = TicketType.create(ADDR_A, NatType(5), amount)
-        res = t.split(l, r)
+        t = TicketType.create(ADDR_A, content(case.get('content', 'nat5')), amount)
+        try:
+            res = t.split(l, r)
+        except Exception as ex:  # noqa
+            return True, f'split of a ticket (content {case.get("content", "nat5")}) of {amount} into ({l}, {r}) raised {type(ex).__name__}: {ex!s:.100}'
         want_none = l == 0 or r == 0 or l + r != amount
         if (res is None) != want_none:
             return True, f'split of a ticket of {amount} into ({l}, {r}) returned {"None" if res is None else "two tickets"}; Michelson: {"None" if want_none else "Some"}'
@@ -274,6 +382,15 @@ def native(case):
         if top is None:
             return True, f'TICKET with amount {amount} failed: {r.error}'
         return (top.item is None) != (amount == 0), f'TICKET with amount {amount} gives {"None" if top.item is None else "Some"}'
+    if k == 'ticket_deprecated':
+        from pytezos.michelson.repl import Interpreter
+        i = Interpreter()
+        amount = case.get('amount', 0)
+        r = i.execute(f'PUSH nat {amount} ; PUSH nat 5 ; TICKET_DEPRECATED')
+        if r.error is not None:
+            return amount > 0, f'TICKET_DEPRECATED with amount {amount} failed: {r.error}'
+        top = i.stack.items[0]
+        return top.amount != amount or amount == 0, f'TICKET_DEPRECATED with amount {amount} pushed a ticket of amount {top.amount}'
     return False, 'no native replay for this obligation'
 
 
@@ -293,46 +410,234 @@ def run_P(ck):
     ck.trust('z3 5.1')
     jobs = [('split', 'props.C20_P:job', ('split',), None), ('ticket', 'props.C20_P:job', ('ticket',), None),
             ('split_instr', 'props.C20_P:job', ('split_instr',), None)]
+    for k in CONTENT_KINDS[1:]:
+        jobs += [(f'split[{k}]', 'props.C20_P:job', ('split', (k, False)), None), (f'ticket[{k}]', 'props.C20_P:job', ('ticket', k), None),
+                 (f'split_instr[{k}]', 'props.C20_P:job', ('split_instr', (k, False)), None)]
+    jobs += [('split[annotated]', 'props.C20_P:job', ('split', ('nat5', True)), None),
+             ('split_instr[annotated]', 'props.C20_P:job', ('split_instr', ('pair', True)), None)]
+    jobs += [(f'ticket_deprecated[{k}]', 'props.C20_P:job', ('ticket_deprecated', k), None) for k in ('nat5', 'pair')]
+    jobs += [(f'read_ticket[{k}]', 'props.C20_P:job', ('read_ticket', k), None) for k in ('nat5', 'pair', 'str')]
     jobs += [(f'join{c}', 'props.C20_P:job', ('join', c), None) for c in JOIN_CASES]
-    jobs += [(f'join_instr{c}', 'props.C20_P:job', ('join_instr', c), None) for c in JOIN_CASES[:5]]
+    same_type = lambda c: content(c[2]).get_anon_type().as_micheline_expr() == content(c[3]).get_anon_type().as_micheline_expr()   # noqa
+    jobs += [(f'join_instr{c}', 'props.C20_P:job', ('join_instr', c), None) for c in JOIN_CASES[:5] + [c for c in JOIN_CASES[9:] if same_type(c)]]
     for res in run_jobs(jobs):
         if 'error' in res:
             raise RuntimeError(f"harness {res['label']} crashed:\n{res['error']}")
         eng = FakeEng(res)
-        kind = res['label'] if not res['label'].startswith('join') else 'join'
+        kind = res['label'].split('[')[0] if not res['label'].startswith('join') else 'join'
 
-        def nat_(cex, kind=kind):
-            c = dict(cex, kind=kind)
+        ckind = next((k for k in CONTENT_KINDS if f'[{k}]' in res['label']), 'pair' if 'instr[annotated]' in res['label'] else 'nat5')
+
+        def nat_(cex, kind=kind, ckind=ckind):
+            c = dict(cex, kind=kind, content=ckind)
             cex.clear()
             cex.update(c)
             return native(c)
         report(ck, eng, [('', 'props.C20_P:replay', nat_, None)])
         functions_interpreted(ck, eng)
-    # is_duplicable over enumerated type shapes (native evaluation of the real classmethod: finite, exhaustive to depth 3)
-    from pytezos.michelson.types.base import MichelsonType
-    leaves = ['nat', 'string', {'prim': 'ticket', 'args': [{'prim': 'nat'}]}, {'prim': 'ticket', 'args': [{'prim': 'nat'}], 'annots': ['%tk']},
-              {'prim': 'ticket', 'args': [{'prim': 'string', 'annots': [':c']}], 'annots': [':ty']}]
-    exprs = [{'prim': x} if isinstance(x, str) else x for x in leaves]
-    for _ in range(2):
-        new = []
-        for a in exprs[:8]:
-            new += [{'prim': 'option', 'args': [a]}, {'prim': 'list', 'args': [a]}, {'prim': 'map', 'args': [{'prim': 'nat'}, a]},
-                    {'prim': 'big_map', 'args': [{'prim': 'nat'}, a]}, {'prim': 'lambda', 'args': [a, {'prim': 'unit'}]}]
-            for b in exprs[:5]:
-                new += [{'prim': 'pair', 'args': [a, b]}, {'prim': 'or', 'args': [a, b]}]
-        exprs += new
+    run_type_shapes(ck)
+    run_duplicate_values(ck)
 
-    def has_ticket(x):
-        return x['prim'] == 'ticket' or (x['prim'] != 'lambda' and any(has_ticket(a) for a in x.get('args', [])))
-    bad = []
+
+# ------------------------------------------------------------------ type-level guards against duplicating / forging tickets
+# Widened (the previous enumeration wrapped only the first 8 shapes twice, so a ticket never sat deeper than directly under
+# ONE constructor although the label said depth <= 3, and it looked at is_duplicable only): every composition of up to three
+# constructors, the ticket in every argument position, written out here independently of pytezos.
+#   holds_ticket(t)   a VALUE of type t can hold a ticket: t is a ticket, or a non-code constructor with such an argument
+#                     (lambda: code, contract: an address - neither holds a ticket value)
+#   is_duplicable(t)  == not holds_ticket(t)              (DUP / DUP n / GET refuse exactly the ticket holders)
+#   is_pushable(t), is_packable(t)  false whenever holds_ticket(t)   (PUSH / UNPACK must not forge a ticket; the converse is
+#                     not demanded here: big_map, operation, contract ... are unpushable for other reasons)
+# Order of evaluation: all ticket-free shapes FIRST, then the ticket holders - a type-level cache keyed too coarsely
+# (seed C20_3) answers for the holder what it computed for its ticket-free sibling.
+# CANDIDATE_DEFECT (unchanged tree, reported, not registered): `contract (ticket nat)` - and every shape around it - is reported
+# non-duplicable by pytezos (it recurses into the parameter type); Michelson lets a contract handle be duplicated.  This is a
+# refusal too many, not a duplication, so it does not break C20's statement; the `iff` is therefore demanded on contract-free
+# shapes and only the safe direction (holder => not duplicable) on shapes with a contract in them.
+RUN_CANDIDATE_DEFECTS = False
+_N, _U = {'prim': 'nat'}, {'prim': 'unit'}
+
+
+def _wrappers(a):
+    return [{'prim': 'option', 'args': [a]}, {'prim': 'list', 'args': [a]}, {'prim': 'map', 'args': [_N, a]},
+            {'prim': 'big_map', 'args': [_N, a]}, {'prim': 'lambda', 'args': [a, _U]}, {'prim': 'lambda', 'args': [_U, a]},
+            {'prim': 'pair', 'args': [a, _N]}, {'prim': 'pair', 'args': [_N, a]}, {'prim': 'or', 'args': [a, _N]},
+            {'prim': 'or', 'args': [_N, a]}, {'prim': 'contract', 'args': [a]}]
+
+
+def type_shapes():
+    tk = {'prim': 'ticket', 'args': [_N]}
+    tk_ty = {'prim': 'ticket', 'args': [{'prim': 'string', 'annots': [':c']}], 'annots': [':ty']}
+    tk_fld = {'prim': 'ticket', 'args': [_N], 'annots': ['%tk']}          # field annotations are legal under pair / or only
+    out = [_N, {'prim': 'string'}, tk, tk_ty]
+    # depth 1..3 over nat / ticket nat, depth 1..2 over the annotated ticket and string
+    for leaves, depth in (([_N, tk], 3), ([{'prim': 'string'}, tk_ty], 2)):
+        level = leaves
+        for _ in range(depth):
+            level = [w for a in level for w in _wrappers(a)]
+            out += level
+    fld = [{'prim': 'pair', 'args': [tk_fld, _N]}, {'prim': 'pair', 'args': [_N, tk_fld]}, {'prim': 'or', 'args': [tk_fld, _N]},
+           {'prim': 'or', 'args': [_N, tk_fld]}, {'prim': 'pair', 'args': [tk_fld, tk]}, {'prim': 'pair', 'args': [{'prim': 'nat', 'annots': ['%n']}, {'prim': 'string', 'annots': ['%s']}]}]
+    out += fld
+    for i, a in enumerate(fld):
+        lv = _wrappers(a)
+        out += lv + ([w for b in lv for w in _wrappers(b)] if i < 2 else [])
+    return out
+
+
+def holds_ticket(x):
+    if x['prim'] == 'ticket':
+        return True
+    if x['prim'] in ('lambda', 'contract'):
+        return False
+    return any(holds_ticket(a) for a in x.get('args', []))
+
+
+def has_contract(x):
+    return x['prim'] == 'contract' or any(has_contract(a) for a in x.get('args', []))
+
+
+def run_type_shapes(ck):
+    from pytezos.michelson.types.base import MichelsonType
+    exprs = type_shapes()
+    exprs = [x for x in exprs if not holds_ticket(x)] + [x for x in exprs if holds_ticket(x)]
+    bad = {'is_duplicable': [], 'is_pushable': [], 'is_packable': []}
+    n = 0
     for x in exprs:
+        t = MichelsonType.match(x)
+        n += 1
+        h = holds_ticket(x)
+        for rnd in (1, 2):        # asked twice: the answer must not depend on having been asked before
+            d = t.is_duplicable()
+            if (d and h) or (not d and not h and (RUN_CANDIDATE_DEFECTS or not has_contract(x))):
+                bad['is_duplicable'].append((x, d, rnd))
+            if h and t.is_pushable():
+                bad['is_pushable'].append((x, True, rnd))
+            if h and t.is_packable():
+                bad['is_packable'].append((x, True, rnd))
+    for name, clause in (('is_duplicable', 'false_iff_type_contains_ticket'), ('is_pushable', 'false_if_type_contains_ticket'),
+                         ('is_packable', 'false_if_type_contains_ticket')):
+        b = bad[name]
+        ck.obligation(f'{name}::{clause}[{n} type shapes: every composition of <= 3 constructors, ticket in every position, annotated forms]',
+                      'failed' if b else 'discharged', 'S', 'enumeration', 0.0)
+        if b:
+            from pytezos.michelson.format import micheline_to_michelson
+            ck.violation(f'{name}::{clause}', f'{name}() is {b[0][1]} for `{micheline_to_michelson(b[0][0])}` (asked the {b[0][2]}. time; '
+                         f'a value of this type {"holds" if holds_ticket(b[0][0]) else "cannot hold"} a ticket)', case=dict(type=b[0][0]), wclass=name)
+
+
+# ------------------------------------------------------------------ the duplication itself, on VALUES of every ticket-holding shape
+# is_duplicable() is only the predicate; what duplicates is `value.duplicate()` (DUP / DUP n call it), and a class may override it.
+# For every enumerated type shape that holds a ticket a VALUE really holding one is built from an independently written Micheline
+# literal, and the real `value.duplicate()`, the real DUP on [value] and the real DUP 2 on [nat ; value] must all refuse.
+# Structural clause: every MichelsonType subclass that overrides `duplicate` is the OUTER constructor of at least one such value.
+#
+# Found this way (harness audit) and FIXED in /repo 9ae50f1: BigMapType.duplicate (types/big_map.py) overrode MichelsonType.duplicate
+# WITHOUT `assert self.is_duplicable()`: DUP of a big_map whose values hold tickets succeeded (`EMPTY_BIG_MAP nat (ticket string) ;
+# PUSH nat 5 ; PUSH string "a" ; TICKET ; ASSERT_SOME ; SOME ; PUSH nat 1 ; UPDATE ; DUP` -> two big_maps, each with the ticket of
+# amount 5).  Shapes whose OUTER constructor is big_map are part of the registered run (lead's decision); VERIF_C20_BIGMAP_DUPLICATE=0
+# leaves them out (only for runs against trees older than the fix).
+import os as _os
+RUN_BIGMAP_DUPLICATE = _os.environ.get('VERIF_C20_BIGMAP_DUPLICATE', '1') != '0'
+_TICKETER = 'KT1TxqZ8QtKvLu3V3JH7Gx58n7Co8pgtpQU5'
+
+
+def shape_value(x, want_ticket=True):
+    """a Micheline value of type x; in a holder the ticket-carrying branch / element is taken"""
+    p, a = x['prim'], x.get('args', [])
+    if p == 'nat':
+        return {'int': '1'}
+    if p == 'string':
+        return {'string': 's'}
+    if p == 'unit':
+        return {'prim': 'Unit'}
+    if p == 'ticket':
+        return {'prim': 'Pair', 'args': [{'string': _TICKETER}, {'prim': 'Pair', 'args': [shape_value(a[0]), {'int': '3'}]}]}
+    if p == 'option':
+        return {'prim': 'Some', 'args': [shape_value(a[0])]}
+    if p == 'list':
+        return [shape_value(a[0])]
+    if p in ('map', 'big_map'):
+        return [{'prim': 'Elt', 'args': [shape_value(a[0]), shape_value(a[1])]}]
+    if p == 'pair':
+        return {'prim': 'Pair', 'args': [shape_value(a[0]), shape_value(a[1])]}
+    if p == 'or':
+        side = 1 if (holds_ticket(a[1]) and not holds_ticket(a[0])) else 0
+        return {'prim': ('Left', 'Right')[side], 'args': [shape_value(a[side])]}
+    if p == 'lambda':
+        return [{'prim': 'FAILWITH'}]
+    if p == 'contract':
+        return {'string': _TICKETER}
+    raise KeyError(p)
+
+
+def _all_subclasses(c):
+    out = []
+    for s_ in c.__subclasses__():
+        out.append(s_)
+        out += _all_subclasses(s_)
+    return out
+
+
+def run_duplicate_values(ck):
+    from pytezos.context.impl import ExecutionContext
+    from pytezos.michelson.format import micheline_to_michelson
+    from pytezos.michelson.instructions.stack import DupInstruction, DupnInstruction
+    from pytezos.michelson.micheline import MichelineLiteral
+    from pytezos.michelson.stack import MichelsonStack
+    from pytezos.michelson.types import NatType, TicketType
+    from pytezos.michelson.types.base import MichelsonType
+    ck.function(MichelsonType.duplicate)
+    dup2 = DupnInstruction.create_type(args=[MichelineLiteral.create(2)])
+
+    def has_real_ticket(v):
+        if isinstance(v, TicketType):
+            return True
+        if isinstance(v, (list, tuple)):
+            return any(has_real_ticket(y) for y in v)
+        if isinstance(v, MichelsonType):
+            return any(has_real_ticket(getattr(v, a, None)) for a in ('item', 'items'))
+        return False
+
+    holders = [x for x in type_shapes() if holds_ticket(x)]
+    built, skipped, outer, bad = 0, 0, set(), []
+    for x in holders:
+        if x['prim'] == 'big_map' and not RUN_BIGMAP_DUPLICATE:
+            continue
         try:
             t = MichelsonType.match(x)
-        except Exception:   # noqa  field annotations are only legal under pair/or: not a type
+            v = t.from_micheline_value(shape_value(x))
+            assert has_real_ticket(v)
+        except Exception:  # noqa  no value of this shape can be built from a literal (counted, not hidden)
+            skipped += 1
             continue
-        if t.is_duplicable() == has_ticket(x):
-            bad.append(x)
-    ck.obligation(f'is_duplicable::false_iff_type_contains_ticket[{len(exprs)} type shapes, depth<=3]', 'failed' if bad else 'discharged',
+        built += 1
+        outer.add(x['prim'])
+        accepted = []
+        for how, act in (('value.duplicate()', lambda: v.duplicate()),
+                         ('DUP', lambda: DupInstruction.execute(MichelsonStack.from_items([v]), [], ExecutionContext())),
+                         ('DUP 2', lambda: dup2.execute(MichelsonStack.from_items([NatType(0), v]), [], ExecutionContext()))):
+            try:
+                act()
+            except Exception:  # noqa  any refusal
+                continue
+            accepted.append(how)
+        if accepted:
+            bad.append((x, accepted))
+    ck.bound('S.duplicate_values', f'{built} ticket-holding values built and attacked, {skipped} shapes without a literal value skipped'
+             + ('' if RUN_BIGMAP_DUPLICATE else '; outer big_map excluded (VERIF_C20_BIGMAP_DUPLICATE=0)'))
+    oid = 'duplicate::raises.on_every_value_whose_type_holds_a_ticket'
+    ck.obligation(f'{oid}[value.duplicate(), DUP, DUP 2 on {built} values: every composition of <= 3 constructors]', 'failed' if bad else 'discharged',
                   'S', 'enumeration', 0.0)
     if bad:
-        ck.violation('is_duplicable::false_iff_type_contains_ticket', f'is_duplicable wrong for {bad[0]}', case=dict(type=bad[0]), wclass='is_duplicable')
+        x, acc = bad[0]
+        ck.violation(oid, f'{", ".join(acc)} succeed(s) on a value of type `{micheline_to_michelson(x)}` that holds a ticket of amount 3 '
+                     f'({len(bad)} shapes in all, outer constructors {sorted({b[0]["prim"] for b in bad})})', case=dict(type=x), wclass='duplicate ' + x['prim'])
+    # structural clause
+    over = [c for c in _all_subclasses(MichelsonType) if 'duplicate' in vars(c)]
+    missing = [c.__name__ for c in over if c.prim not in outer and (RUN_BIGMAP_DUPLICATE or c.prim != 'big_map')]
+    oid2 = 'duplicate::every_class_overriding_duplicate_is_attacked_as_outer_constructor'
+    ck.obligation(f'{oid2}[{sorted(c.__name__ for c in over)}]', 'failed' if missing else 'discharged', 'S', 'enumeration', 0.0)
+    if missing:
+        ck.violation(oid2, f'{missing} override(s) MichelsonType.duplicate but no ticket-holding value with that outer constructor is in the enumeration',
+                     case=dict(classes=missing), wclass='duplicate override')
